@@ -387,3 +387,52 @@ Proof.
   destruct (omap (map strip_out_witness) (outs_of (poutputs q))) as [so'| |] eqn:OQ; cbn [obind] in HQ; try discriminate.
   assert (so = so') as <- by congruence. eapply outs_comms_equal; eauto.
 Qed.
+
+(* ================================================================ revealing an explicit value next to an existing commitment *)
+(* the property's "explicit-value proof fields" clause: a later role adds the explicit amount / asset (and its blind proof, which no
+   extraction reads) next to a commitment that is already there; what is extracted — and hence the unique id — stays the commitment *)
+Definition reveal_pairs_in : list (field * field) := [(F_iss_amount, F_iss_comm); (F_iss_keys, F_iss_keys_comm)].
+Definition reveal_pairs_out : list (field * field) := [(F_amount, F_amount_comm); (F_asset, F_asset_comm)].
+Ltac lk2 := cbn [unk set_unk];
+  repeat match goal with |- context [bytes_eqb ?a ?b] => let r := eval vm_compute in (bytes_eqb a b) in change (bytes_eqb a b) with r end; cbv iota.
+
+Lemma txin_of_reveal exempt m f fc v c : In (f, fc) reveal_pairs_in -> unk m fc = Some c -> txin_of_with exempt (set_unk m f v) = txin_of_with exempt m.
+Proof.
+  intros I C. unfold txin_of_with, is_pegin_with, prev_index.
+  destruct I as [[= <- <-]|[[= <- <-]|[]]]; lk2; rewrite C.
+  - destruct v, (unk m F_iss_amount); reflexivity.
+  - destruct v, (unk m F_iss_keys); reflexivity.
+Qed.
+Lemma txout_of_reveal m f fc v c : In (f, fc) reveal_pairs_out -> unk m fc = Some c -> txout_of (set_unk m f v) = txout_of m.
+Proof.
+  intros I C. unfold txout_of.
+  destruct I as [[= <- <-]|[[= <- <-]|[]]]; lk2; rewrite C.
+  - destruct (unk m F_asset_comm), (unk m F_asset), v, (unk m F_amount); reflexivity.
+  - destruct v, (unk m F_asset), (unk m F_amount_comm), (unk m F_amount); reflexivity.
+Qed.
+Lemma lt_step_reveal st m f fc v : In (f, fc) reveal_pairs_in -> lt_step st (set_unk m f v) = lt_step st m.
+Proof. intros I. unfold lt_step, req_time, req_height. destruct I as [[= <- <-]|[[= <- <-]|[]]]; lk2; reflexivity. Qed.
+
+Lemma upd_nth_length l i g : length (upd_nth l i g) = length l.
+Proof. revert i. induction l as [|x l IH]; intros [|i]; cbn; auto. Qed.
+Lemma upd_nth_fold {S} (step : S -> pmap -> S) g : (forall st m, step st (g m) = step st m) ->
+  forall l i st, fold_left step (upd_nth l i g) st = fold_left step l st.
+Proof. intros H. induction l as [|x l IH]; intros [|i] st; cbn [upd_nth fold_left]; auto. now rewrite H. Qed.
+Lemma upd_nth_map {B} (h : pmap -> B) g : forall l i, h (g (nth i l empty_map)) = h (nth i l empty_map) -> map h (upd_nth l i g) = map h l.
+Proof. induction l as [|x l IH]; intros [|i] H; cbn [upd_nth map nth] in *; auto; [now rewrite H|now rewrite IH]. Qed.
+Lemma upd_nth_outs g : forall l i, txout_of (g (nth i l empty_map)) = txout_of (nth i l empty_map) -> outs_of (upd_nth l i g) = outs_of l.
+Proof. induction l as [|x l IH]; intros [|i] H; cbn [upd_nth outs_of nth] in *; auto; [now rewrite H|now rewrite IH]. Qed.
+
+Theorem extract_reveal_input arms exempt p i f fc v c : In (f, fc) reveal_pairs_in -> unk (nth i (pinputs p) empty_map) fc = Some c ->
+  extract_tx_with arms exempt (mkpset (pglobal p) (upd_nth (pinputs p) i (fun m => set_unk m f v)) (poutputs p)) = extract_tx_with arms exempt p.
+Proof.
+  intros I C. unfold extract_tx_with, sanity_check, locktime_with, lt_fold. cbn [pglobal pinputs poutputs].
+  rewrite upd_nth_length, (upd_nth_fold lt_step _ (fun st m => lt_step_reveal st m f fc v I)).
+  now rewrite (upd_nth_map (txin_of_with exempt) _ _ _ (txin_of_reveal exempt _ f fc v c I C)).
+Qed.
+Theorem extract_reveal_output arms exempt p i f fc v c : In (f, fc) reveal_pairs_out -> unk (nth i (poutputs p) empty_map) fc = Some c ->
+  extract_tx_with arms exempt (mkpset (pglobal p) (pinputs p) (upd_nth (poutputs p) i (fun m => set_unk m f v))) = extract_tx_with arms exempt p.
+Proof.
+  intros I C. unfold extract_tx_with, sanity_check, locktime_with. cbn [pglobal pinputs poutputs].
+  now rewrite upd_nth_length, (upd_nth_outs _ _ _ (txout_of_reveal _ f fc v c I C)).
+Qed.
